@@ -1259,10 +1259,44 @@ func isSyncPoint(in ssa.Instruction) bool {
 		}
 		if fn := x.Call.StaticCallee(); fn != nil {
 			n := fn.String()
-			return strings.HasPrefix(n, "(*sync.Mutex).") || strings.HasPrefix(n, "(*sync.RWMutex).")
+			return strings.HasPrefix(n, "(*sync.Mutex).") || strings.HasPrefix(n, "(*sync.RWMutex).") || strings.HasPrefix(n, "(*sync.Pool).")
 		}
+	case *ssa.Return:
+		// a function that hands an object back to a sync.Pool (typically in a defer) may still return memory of that
+		// object: another goroutine can take the object from the pool before the caller has used the result
+		return putsToPool(x.Parent())
 	}
 	return false
+}
+
+var poolPutCache = map[*ssa.Function]bool{}
+
+func putsToPool(fn *ssa.Function) bool {
+	if fn == nil {
+		return false
+	}
+	if v, ok := poolPutCache[fn]; ok {
+		return v
+	}
+	r := false
+	for _, b := range fn.Blocks {
+		for _, in := range b.Instrs {
+			var c *ssa.CallCommon
+			switch y := in.(type) {
+			case *ssa.Call:
+				c = &y.Call
+			case *ssa.Defer:
+				c = &y.Call
+			}
+			if c != nil {
+				if cal := c.StaticCallee(); cal != nil && cal.String() == "(*sync.Pool).Put" {
+					r = true
+				}
+			}
+		}
+	}
+	poolPutCache[fn] = r
+	return r
 }
 
 // maybePreempt forks the schedule "someone else first". Returns true if the CURRENT state was switched away (never: the
